@@ -180,6 +180,9 @@ let parse_op (line : string) : op =
   | "subscribe" :: o :: hid :: rest ->
     let effs, _ = parse_effs rest in
     OpSubscribe (ni o, { h_id = zi hid; h_effs = effs })
+  | "onupdate" :: n :: hid :: rest ->
+    let effs, _ = parse_effs rest in
+    OpOnUpdate (ni n, { h_id = zi hid; h_effs = effs })
   | ["unsubscribe"; o; s] -> OpUnsubscribe (ni o, ni s)
   | ["stateunsub"; s] -> OpStateUnsubscribe (ni s)
   | ["set"; x; v] -> OpSet (ni x, zi v)
@@ -270,6 +273,7 @@ let show_event = function
   | EvBindRun (n, gen, lhs) -> Printf.sprintf "bindrun %s gen=%s lhs=%s" (ns n) (zs gen) (show_val lhs)
   | EvCut (_, o, nw, r) -> Printf.sprintf "cut %s %s -> %s" (show_val o) (show_val nw) (b2s r)
   | EvUpd (o, tok, hid, nu, v) -> Printf.sprintf "upd obs=%s tok=%s hid=%s %s %s" (ns o) (zs tok) (zs hid) (show_nu nu) (show_oval v)
+  | EvNodeUpd (n, ix, hid, nu, v) -> Printf.sprintf "nodeupd n=%s ix=%s hid=%s %s %s" (ns n) (zs ix) (zs hid) (show_nu nu) (show_oval v)
   | EvEffRead (o, r) ->
     "effread " ^ ns o ^ " " ^ (match r with Inl (Ok v) -> "v:" ^ show_val v | Inl _ -> "?" | Inr c -> "e:" ^ zs c)
   | EvEffGet (x, v) -> Printf.sprintf "effget %s %s" (ns x) (show_val v)
